@@ -2,11 +2,20 @@
 // Plain map is one level key map. It contains keys like "lvl1.lvl2".
 package plainmap
 
-import "strings"
+import (
+	"bytes"
+	"encoding/json"
+)
 
 // Any represent any type
 type Any interface{}
 
 func formatStringJSON(s string) string {
-	return "\"" + strings.Replace(s, "\"", "\\\"", -1) + "\""
+	// encoding/json escapes quotes, backslashes and control characters
+	// (encoding a string never fails)
+	var buf bytes.Buffer
+	encoder := json.NewEncoder(&buf)
+	encoder.SetEscapeHTML(false)
+	encoder.Encode(s)
+	return string(bytes.TrimSuffix(buf.Bytes(), []byte("\n")))
 }
